@@ -22,6 +22,10 @@ ARCHES = ("x86", "mips", "ppc", "aarch64")
 CFGN = "il::control_flow_graph::ControlFlowGraph::"
 
 
+FLOOR_R2 = {"x86": 100, "mips": 70, "ppc": 25, "aarch64": 40}
+FLOOR_R4 = {"x86": 80, "mips": 60, "ppc": 20, "aarch64": 20}
+
+
 def shape_runs(db):
     """ilshape results for every handler of every lifter (cached on the db object)."""
     cached = getattr(db, "_shape_runs", None)
@@ -114,7 +118,7 @@ def r2(db, rep, runs, arches=ARCHES, rid="R2"):
             r.ok("%s|widths" % h, db.where(fb), detail={"obligations": len(res.obl),
                                                         "proved": sum(1 for o in res.obl if o["verdict"] == "proved")})
     rep.notes.append({"%s_obligations" % rid: n})
-    r.floor(150, "handlers and helpers of the lifters")
+    r.floor(sum(FLOOR_R2[a] for a in arches), "handlers and helpers of the lifters")
     return n
 
 
@@ -348,7 +352,7 @@ def r4(db, rep, arches=ARCHES, rid="R4"):
         rep.anchor(len(hs) >= {"x86": 80, "mips": 60, "ppc": 20, "aarch64": 20}[arch], "%s handlers (found %d)" % (arch, len(hs)))
         hs = [h for h in hs if last_seg(h) not in ("rep_prefix", "repne_prefix")]
         lifters.entry_exit_rule(db, rep, r, hs)
-    r.floor(150, "handlers")
+    r.floor(sum(FLOOR_R4[a] for a in arches), "handlers")
 
 
 # ------------------------------------------------------------------------------------------------ R5
